@@ -102,11 +102,17 @@ def _gen(seed: int, i: int, tier: str) -> dict:
 
 
 def gen(seed: int, i: int, tier: str) -> dict:
+    if i % 4 == 3:
+        from vsim.universe import gen_universe
+        return gen_universe(random.Random(f"U:C04:{seed}:{i}"), tier)
     scn = _gen(seed, i, tier)
     return G.maybe_tcp(random.Random(f"C04link:{seed}:{i}"), scn)
 
 
 def run(scn):
+    if scn.get("kind") == "universe":
+        from vsim.universe import run_universe
+        return run_universe(scn, PROP, ASPECTS, keep=None)
     st = {"repres": False, "unknown": False, "nodes": set(), "lines": []}
 
     def on_step(i, op, obs, disc, model, w, res):
